@@ -281,8 +281,18 @@ def make_limit_case(seed):
                     continue
                 if v >= 1000:
                     over[q] = f'{v:,.2f}' if v != int(v) else f'{int(v):,}'
-    return {'persona': p, 'file': [], 'prompt': True, 'refuse_at': None, 'layout': None,
+    case = {'persona': p, 'file': [], 'prompt': True, 'refuse_at': None, 'layout': None,
             'sched': [rng.randrange(1 << 32), rng.pick([0, 1, 3])], 'faults': [kind], 'limit': kind}
+    if rng.chance(0.5):
+        # an earlier return with another filing status solved in the same process (limits depend on the status)
+        import copy
+        pre = copy.deepcopy(p)
+        pre['over']['1040.filing_status'] = 'Single' if status == 'MarriedFilingJointly' else 'MarriedFilingJointly'
+        for q in list(pre['over']):
+            if q.endswith(('.box_6', '.box_7')):
+                pre['over'][q] = '10'          # well below every threshold: the earlier return is an ordinary one
+        case['prelude'] = pre
+    return case
 
 
 def limit_exceeded(case, run):
@@ -330,6 +340,13 @@ def limit_exceeded(case, run):
 
 
 def eval_limits(case, acc=None):
+    if case.get('prelude'):
+        try:
+            shipped.execute(case['prelude'], prompt=True)
+        except (core.RunTimeout, core.BudgetExceeded):
+            pass
+        if acc is not None:
+            acc.count('fault:earlier-return-in-same-process')
     run = shipped_props.execute(case)
     fs = []
     ex = limit_exceeded(case, run)
